@@ -284,14 +284,18 @@ CHECKS = {
              "issues (the bounce-buffer read, the read-modify-write of the first and last block, the write) has offset and length that are "
              "multiples of the alignment; a read from a fixed-size linear composite and from a stripe composite equals the read from the flat "
              "file of the concatenated / striped layout clipped at the composite's size, for every unit/stripe size, sub-file count, offset and "
-             "length - the parts are those of the C15 model of range_split and C15_tiling supplies the tiling. The whole model (incl. aligned "
-             "pwrite with truncation, composite writes, the variable-size composite) is executable and tied to the code by op sequences run on "
+             "length - the parts are those of the C15 model of range_split and C15_tiling supplies the tiling. Writes: for every alignment, file "
+             "content, offset, non-empty data and whatever the bounce buffer contains, the alignment adaptor's pwrite (read-modify-write of the "
+             "first and last block, one aligned write, truncation back) leaves exactly the file the plain pwrite leaves and reports the full "
+             "count; a write through the fixed-size linear composite and through the stripe composite equals the write into the flat "
+             "concatenated / striped view clipped at the composite's size, and the sub-files keep their size. The whole model (incl. the "
+             "variable-size composite and the vectored variants) is executable and tied to the code by op sequences run on "
              "the real adaptors over in-memory recording sub-files under ASan/UBSan, compared with the compiled model on return value, data, "
              "content of every sub-file and the exact underlay request log; an independent flat-file oracle (incl. buffer-address alignment) "
              "supplies failing inputs",
-        note="trusted: Lean kernel + 3 standard axioms; PARTIAL: the write paths (aligned pwrite's read-modify-write and truncation, composite "
-             "writes), the vectored variants and the variable-size linear composite have no closed-form theorem - for them the claim rests on "
-             "the differential check and the flat-file oracle over generated op sequences; offsets are far below 2^63 (plain Nat arithmetic; "
+        note="trusted: Lean kernel + 3 standard axioms; the vectored variants (preadv/pwritev) and the variable-size linear composite have no "
+             "closed-form theorem - for them the claim rests on the differential check and the flat-file oracle over generated op sequences; an "
+             "empty write is specified as 'file unchanged' by the model only; offsets are far below 2^63 (plain Nat arithmetic; "
              "wrap-around of the splitters is C15); align_memory is exercised with alignment >= 8 only (AlignedAlloc uses posix_memalign); "
              "requests that start at or after end-of-file are outside the statement and are only compared model-vs-code",
         technique="Lean 4 proof over an executable model + op-sequence differential correspondence under sanitizers",
